@@ -290,6 +290,63 @@ func runC05(r *vf.Run) {
 				r.Violation(id+"/"+w, "writers-differ", map[string]any{"difference": d, "compared": ix.Writers[0] + " vs " + w, "rows": len(ds.Rows), "specs": specStrings(ds), "first_rows": witnessRows(ds, 20)})
 			}
 		}
+		// one in-memory writer written twice: first after a prefix of the rows, then again after the rest. Both outputs
+		// must be complete for what had been added at that time (writing must not consume the writer's contents).
+		if len(ds.Rows) >= 2 && r.Want(id+"/written-twice") {
+			cut := len(ds.Rows) * 3 / 5
+			w := updog.NewIndexWriter(filepath.Join(dir, "unused"))
+			addAll := func(from, to int) bool {
+				for i := from; i < to; i++ {
+					if rid, err := w.AddRow(ds.Rows[i]); err != nil || int(rid) != i {
+						r.Violation(id+"/written-twice", "addrow", map[string]any{"call": i, "id": rid, "error": fmt.Sprint(err)})
+						return false
+					}
+				}
+				return true
+			}
+			writeTo := func(p string) error {
+				db, err := bbolt.Open(p, 0o644, &bbolt.Options{Timeout: 10 * time.Second})
+				if err != nil {
+					return err
+				}
+				defer db.Close()
+				return w.WriteToBoltDatabase(db)
+			}
+			p1, p2 := filepath.Join(dir, "twice-1.updog"), filepath.Join(dir, "twice-2.updog")
+			if addAll(0, cut) {
+				err1 := writeTo(p1)
+				if addAll(cut, len(ds.Rows)) {
+					err2 := writeTo(p2)
+					for k, pp := range []string{p1, p2} {
+						part := &gen.Dataset{ID: id, Rows: ds.Rows[:cut], Unique: ds.Unique}
+						if k == 1 {
+							part.Rows = ds.Rows
+						}
+						part.Index()
+						hid := fmt.Sprintf("%s/written-twice/%d", id, k+1)
+						r.Eval(1)
+						r.Count("second_writes_of_one_writer", int64(k))
+						if e := []error{err1, err2}[k]; e != nil {
+							r.Violation(hid, "write", map[string]any{"error": e.Error()})
+							continue
+						}
+						idx, err := ix.Open(pp, ix.OpenModes[k%2], nil)
+						if err != nil {
+							r.Violation(hid, "open", map[string]any{"error": err.Error(), "rows": len(part.Rows)})
+							continue
+						}
+						d := oracle.CompareSchema(idx.GetSchema(), part.Rows)
+						if d == "" {
+							_, d = runProbes(idx, probeSet(rng, part, r.Pick(600, 3000), 30))
+						}
+						idx.Close()
+						if d != "" {
+							r.Violation(hid, "probe", map[string]any{"difference": d, "write_number": k + 1, "rows_at_that_time": len(part.Rows), "rows_total": len(ds.Rows), "specs": specStrings(ds)})
+						}
+					}
+				}
+			}
+		}
 		for _, w := range ix.Writers {
 			hid := id + "/" + w
 			if !r.Want(hid) {
